@@ -24,6 +24,8 @@ type Scenario struct {
 	MaxSteps      int
 	PollForeign   time.Duration
 	LockDominance bool
+	// Observer sees every event of every execution (tid, kind, object).
+	Observer func(tid int, kind string, obj any)
 	// StateCache prunes a subtree when the same (happens-before fingerprint,
 	// next actor, remaining budget) was already explored. Sound when all
 	// inter-thread communication goes through instrumented operations.
@@ -129,7 +131,7 @@ func RunOnce(sc *Scenario, prefix []int, expect []cpRec, trace bool) *execution 
 		return c
 	}
 	x.res = vrt.Run(vrt.Config{Chooser: chooser, MaxSteps: sc.MaxSteps, NoPreempt: sc.NoPreempt, KeepTimers: sc.KeepTimers,
-		PollForeign: sc.PollForeign, TraceOn: trace, LockDominance: sc.LockDominance}, body)
+		PollForeign: sc.PollForeign, TraceOn: trace, LockDominance: sc.LockDominance, Observer: sc.Observer}, body)
 	if x.res.Broken != "" && x.broken == "" {
 		x.broken = x.res.Broken
 	}
